@@ -65,6 +65,10 @@ CommitCmds == {<<"commit">>, <<"commit", "apply">>}
 LeaveCmds  == {<<"q">>, <<"exit">>, <<"end">>, <<"abort">>}
 SaveCmds   == {<<"save">>, <<"save", "force">>, <<"write", "memory">>, <<"write">>, <<"copy", "running-config", "startup-config">>}
 WrapperCmds == EnterCmds \cup CommitCmds \cup LeaveCmds \cup SaveCmds
+\* Device families that edit a CANDIDATE configuration (Huawei CE / NE on VRP8, Arista configure sessions, IOS-XR, Junos, Ribbon, Nokia,
+\* Aruba Instant, OcNOS): what the session types takes effect only with the commit, so when committing is enabled the wrapper must hold a
+\* commit command after the last command of the patch (a fact about the devices; which family a model belongs to is an input)
+CommitSent(sent, extra, lastBody) == \E j \in DOMAIN extra : extra[j] > lastBody /\ sent[extra[j]].row \in CommitCmds
 
 \* deploy rules: [pat, timeout, answers, kids]; the rule chain of a path, level by level (first = only match: disjoint siblings)
 \* The clause is defined for paths whose every level is matched, and for top-level commands no rule matches (defaults); how an
